@@ -2,6 +2,7 @@
 import RattrDriver.JsonUtil
 import RattrModel.Ast
 import RattrModel.Context
+import RattrModel.Match
 
 namespace Rattr.Driver
 open Lean Rattr
@@ -19,6 +20,28 @@ def asParams (j : Json) : R Params := do
   return { posonly := (← asStrL (← field j "posonly")), args := (← asStrL (← field j "args")),
            vararg := (← asOptStr (← field j "vararg")).map str,
            kwonly := (← asStrL (← field j "kwonly")), kwarg := (← asOptStr (← field j "kwarg")).map str }
+
+mutual
+/-- a typed `match` pattern (RattrModel/Match.lean): `{"p": "value" | "singleton" | "seq" | "map" | "cls" |
+"star" | "as" | "or", …}` -/
+partial def asPat (j : Json) : R Pat := do
+  let p ← asStr (← field j "p")
+  let pats (key : String) : R (List Pat) := do (← asArr (← field j key)).mapM asPat
+  let optName (key : String) : R (Option Str) := do return (← asOptStr (← field j key)).map str
+  match p with
+  | "value" => return .value (← asNode (← field j "e"))
+  | "singleton" => return .singleton
+  | "seq" => return .sequence (← pats "ps")
+  | "map" => return .mapping (← (← asArr (← field j "keys")).mapM asNode) (← pats "ps") (← optName "rest")
+  | "cls" => return .cls (← asNode (← field j "c")) (← pats "ps") (← asStrL (← field j "kwa")) (← pats "kwps")
+  | "star" => return .star (← optName "name")
+  | "as" => return .as_ (← pats "pat") (← optName "name")
+  | "or" => return .or_ (← pats "ps")
+  | _ => throw s!"unknown pattern kind {p}"
+
+partial def asMatchCase (j : Json) : R MatchCase := do
+  return { pat := (← asPat (← field j "pat")), guard := (← (← asArr (← field j "guard")).mapM asNode),
+           body := (← (← asArr (← field j "body")).mapM asNode) }
 
 partial def asNode (j : Json) : R Node := do
   let k ← asStr (← field j "k")
@@ -53,7 +76,9 @@ partial def asNode (j : Json) : R Node := do
   | "ret" => return .ret (← nodes "v")
   | "forbidden" => return .forbidden (← s "kind")
   | "other" => return .other (← s "kind") (← nodes "kids")
+  | "match" => return Match.stmt (← node "subject") (← (← asArr (← field j "cases")).mapM asMatchCase)
   | _ => throw s!"unknown node kind {k}"
+end
 
 def asIfaceStr (j : Json) : R (Iface Str) := do
   return { posonly := (← asStrL (← field j "posonly")), args := (← asStrL (← field j "args")),
